@@ -79,9 +79,10 @@ class Contract:
                 ret = Sym(st.fresh("ret", case.ret_ty.sort()), case.ret_ty)
             for name, t in case.ensures(pre, post, a, ret.t if ret is not None else None):
                 st.assume(t)
-            ctx.unit.after_suspending_call(ip, self, a, case)
-            if case.raises is not None:
-                raise PyExc(self.make_exc(ip, case))
+            exc = self.make_exc(ip, case) if case.raises is not None else None
+            ctx.unit.after_suspending_call(ip, self, a, case, exc)
+            if exc is not None:
+                raise PyExc(exc)
             return ret
         modifies = case.modifies if case.modifies is not None else self.modifies
         st.havoc(keys=modifies)
@@ -149,11 +150,20 @@ class Unit:
     def run(self, ip):
         raise NotImplementedError
 
+    def props_of(self, obligation_name):
+        """the properties an obligation of this unit belongs to (default: all of the unit's)"""
+        return set(self.props)
+
     # hooks with defaults ---------------------------------------------------
     def contract_for(self, qualname, ctx):
         return None
 
     def loop_spec(self, qualname, ordinal):
+        return None
+
+    def loop_spec_by_shape(self, node, f):
+        """fallback for loops without a registered invariant: a unit may recognise the *shape* of a loop (e.g. `for x in
+        snapshot: x.set()`) and supply the invariant template for it"""
         return None
 
     def before_suspend(self, ip, what, payload):
@@ -231,8 +241,14 @@ class Unit:
     def await_model(self, ip, aw):
         return NotImplemented
 
-    def after_suspending_call(self, ip, contract, a, case):
+    def after_suspending_call(self, ip, contract, a, case, exc):
         pass
+
+    def init_object(self, ip, info, ref):
+        pass
+
+    def dataclass_unset(self, ip, info, ref, name):
+        raise Unsupported(f"dataclass field {info.name}.{name} without a default")
 
 
 class ClassSpec:
@@ -360,6 +376,9 @@ class MethodUnit(Unit):
     def ghost_suspend(self, ip, what, payload):
         pass
 
+    def ghost_exit(self, ip, pre, a, exc, ret):
+        """ghost updates that belong to the code just executed (before the invariant is asserted at the exit)"""
+
     def ghost_init(self, ip):
         pass
 
@@ -403,6 +422,7 @@ class MethodUnit(Unit):
         except PyExc as e:
             exc = e.exc
         kind = "return" if exc is None else f"raise:{exc.pycls.__name__ if exc.pycls else 'sym'}"
+        self.ghost_exit(ip, pre, a, exc, ret)
         if self.cover_exits:
             ctx.cover(f"{self.qualname}/cover:exit[{kind}]")
         if not (self.is_init and exc is not None):  # a constructor that raises leaves no object behind
